@@ -5,6 +5,7 @@ package verifharness
 
 import (
 	"bytes"
+	"context"
 	"crypto/ecdh"
 	"crypto/hpke"
 	"crypto/sha256"
@@ -241,6 +242,22 @@ func (kr *keyring) serverKeys(names []string) []ech.Key {
 // keyOptions hands the key list to NewConn the ways an application may: in one WithKeys option, or spread over two
 // (the split point cycles through the list from call to call). The keys a Conn holds are the concatenation.
 var keySplit atomic.Int64
+
+// otherConnection: another client is accepted and read from while the connection under test is between two calls.
+func otherConnection(kr *keyring, hello []byte) {
+	defer func() { recover() }()
+	other := bytes.Clone(hello)
+	for i := 11; i < 43 && i < len(other); i++ { // its own client random
+		other[i] ^= 0x5c
+	}
+	c, err := ech.NewConn(context.Background(), newScriptConn(append(other, 22, 3, 3, 0, 9, 11, 0, 0, 5, 1, 2, 3)), ech.WithKeys(kr.serverKeys([]string{"K1"})))
+	if err != nil {
+		return
+	}
+	buf := make([]byte, 37)
+	c.Read(buf)
+	c.Read(buf)
+}
 
 // debugOptions: no WithDebug, WithDebug(nil), or a sink that really formats its arguments (and so touches whatever
 // values the library hands it) - logging must never change what a connection does
